@@ -273,6 +273,6 @@ def commitAfterFlush (f : FileSt) (tx : TxSt) : FileSt × CommitRes × List (Nat
 /-- `reportOpen`: the statistic recomputed from the header when opening -/
 def FileSt.reopen (f : FileSt) : FileSt :=
   let fileEnd := max f.alloc.data.endMarker f.alloc.mta.endMarker
-  { f with statData := fileEnd - 2 - f.alloc.metaTotal - f.alloc.data.free.length }
+  { f with alloc := f.alloc.absorbOverflow, statData := fileEnd - 2 - f.alloc.metaTotal - f.alloc.data.free.length }
 
 end TxVerif
